@@ -209,6 +209,8 @@ def tconst_candidates(ss):
 
 def apply_between(ss, hist, op):
     """An operation of the user between two resumed segments (documented API only)."""
+    if op['kind'] == 'set_event_u':
+        return _apply_set_event_u(ss, hist, op)
     if op['kind'] == 'alter_tconst':
         cands = tconst_candidates(ss)
         if not cands:
@@ -222,6 +224,26 @@ def apply_between(ss, hist, op):
                                                'dev': str(mdl.idx.v[i]), 'old': old, 'new': old * op['factor']})
         pr = hist.setdefault('probes', {})
         pr['tconst_altered_between_segments'] = pr.get('tconst_altered_between_segments', 0) + 1
+
+
+def _apply_set_event_u(ss, hist, op):
+    """The user puts a timed event in or out of service before its time has come (Model.alter on the event's u)."""
+    now = float(ss.dae.t)
+    horizon = float(op.get('horizon', 1e9))
+    cands = [e for e in hist['events'] if e['timers'] and all(t > now + 1e-3 for t in e['timers'].values())
+             and min(e['timers'].values()) <= horizon and e['u'] != op['u']]
+    if not cands:
+        return
+    cands.sort(key=lambda e: (e['kind'], e['idx']))
+    e = cands[int(op['pick'] * len(cands)) % len(cands)]
+    mdl = ss.TimedEvent.models[e['kind']]
+    mdl.alter('u', mdl.idx.v[e['i']], op['u'])
+    hist.setdefault('user_status', []).append((now, e['kind'], int(e['i']), float(op['u'])))
+    e['u'] = float(op['u'])     # no timer of this event lies before the boundary, so this is its status at each of its times
+    hist.setdefault('between', []).append({'after_segment': op['after_segment'], 'event': [e['kind'], e['idx']], 'u': op['u'], 't': now})
+    pr = hist.setdefault('probes', {})
+    key = 'event_enabled_after_init' if op['u'] == 1 else 'event_disabled_after_init'
+    pr[key] = pr.get(key, 0) + 1
 
 
 def t_reached(hist):
@@ -515,6 +537,10 @@ def o_persistence(hist, ss, t0=0.0):
                 continue
             if n % 2 == 1:
                 exp[rt[0]][rt[1]] = 1 - exp[rt[0]][rt[1]]
+        for (ta, m_, i_, val_) in hist.get('user_status', []):
+            # status changes made by the user between two segments (at time ta) hold for every later step
+            if T > ta and m_ in exp:
+                exp[m_][i_] = val_
         for m, v in exp.items():
             act = rec['status'].get(m)
             if act is None or act.shape != v.shape:
